@@ -79,12 +79,19 @@ def tasks(tier):
         cfg = dict(M=4, per_class=pc, max_unknown=mu, alphabet=REDUCED, sleeper="policy")
         out.append({"family": "caps-sugar", "cfg": cfg, "entry": e, "bound": 0})
     # attempt_timeout_s: an attempt cut short counts as a (TRANSIENT) failure like any other
-    for pc, mu, at in itertools.product([{}, {"T": 1}, {"T": 0}], [None, 1], [1, 2]):
+    for pc, mu, at, tc in itertools.product([{}, {"T": 1}, {"S": 1}], [None, 1], [1, 2],
+                                            ["T", "P", "U", "S"]):
         for e in Q4:
-            cfg = dict(M=3, per_class=pc, max_unknown=mu, alphabet=REDUCED, attempt_timeout=at,
-                       durs=[0, 3], dur_free=True, loop=e.startswith("Async"),
-                       sleeper_async=e.startswith("Async"))
+            cfg = dict(M=3, per_class=pc, max_unknown=mu, alphabet=["ok", "x:T", "x:U", "r:T"],
+                       attempt_timeout=at, timeout_class=tc, durs=[0, 3], dur_free=True,
+                       loop=e.startswith("Async"), sleeper_async=e.startswith("Async"))
             out.append({"family": "caps-attempt-timeout", "cfg": cfg, "entry": e, "bound": 0})
+    # the operation raises the very same exception object again, now classified differently
+    for pc, mu in itertools.product([{}, {"T": 1}], [None, 1]):
+        for e in Q4 + ["Policy.call", "AsyncPolicy.execute"]:
+            cfg = dict(M=4, per_class=pc, max_unknown=mu,
+                       alphabet=["ok", "x:T", "x:P@", "x:U@", "x:T@"])
+            out.append({"family": "caps-same-object", "cfg": cfg, "entry": e, "bound": 0})
     # overlapping calls on one policy object: re-entrant (the operation of call A runs a whole
     # call B on the same policy) and two interleaved async calls
     for pc, mu, mode in itertools.product([{"T": 1}, {"T": 0, "U": 1}, {}], [None, 1],
